@@ -51,8 +51,10 @@ type c19fcResult struct {
 type c19fcSpan struct{ from, to time.Time }
 
 func c19fcEvent(round, w, b, i, padKB int) []byte {
-	pad := strings.Repeat(fmt.Sprintf("%d.%d.%d.%d;", round, w, b, i), 1+padKB*1024/12)
-	return []byte(fmt.Sprintf(`{"r":%d,"w":%d,"b":%d,"i":%d,"msg":"q\"uote \\ back\n","pad":%q}`, round, w, b, i, pad[:padKB*1024+i%37]))
+	unit := fmt.Sprintf("%d.%d.%d.%d;", round, w, b, i)
+	n := padKB*1024 + i%37
+	pad := strings.Repeat(unit, n/len(unit)+1)[:n]
+	return []byte(fmt.Sprintf(`{"r":%d,"w":%d,"b":%d,"i":%d,"msg":"q\"uote \\ back\n","pad":%q}`, round, w, b, i, pad))
 }
 
 func TestVerifC19FileConc(t *testing.T) {
